@@ -327,6 +327,14 @@ def rejections(ctx, case):
         'axes-setter-wrong-size-Axes': lambda: setattr(da.DimArray(v23()), 'axes', da.Axes([da.Axis(ctx.nparray(l3, kind='i'), 'x'), da.Axis(ctx.nparray(l3, kind='i'), 'y')])),
         'axes-setter-wrong-size-pairs': lambda: setattr(da.DimArray(v23()), 'axes', [A(l3, 'x'), A(l3, 'y')]),
         'axis-values-wrong-size': lambda: setattr(da.DimArray(v23()).axes[0], 'values', ctx.nparray(l3, kind='i')),
+        # a scalar is not a sequence of labels, not even for a dimension of length 1
+        'scalar-labels-pairs': lambda: da.DimArray(ctx.nparray([ctx.real('s')], kind='f'), axes=[('x', ctx.int('lab'))]),
+        'scalar-labels-dict': lambda: da.DimArray(ctx.nparray([ctx.real('s')], kind='f'), axes={'x': ctx.int('lab')}, dims=['x']),
+        'scalar-labels-zeros': lambda: da.zeros(axes=[('x', ctx.int('lab'))]),
+        'scalar-labels-Axis': lambda: da.Axis(ctx.int('lab'), 'x'),
+        'scalar-labels-axes-setitem': lambda: da.DimArray(ctx.nparray([ctx.real('s')], kind='f'), axes=[('x', [3])]).axes.__setitem__('x', ctx.int('lab')),
+        'scalar-labels-axis-values': lambda: setattr(da.DimArray(ctx.nparray([ctx.real('s')], kind='f'), axes=[('x', [3])]).axes['x'], 'values', ctx.int('lab')),
+        'scalar-labels-newaxis': lambda: da.DimArray(ctx.nparray([ctx.real('s')], kind='f'), axes=[('x', [3])]).newaxis('z', values=ctx.real('lab')),
         'axes-item-wrong-size': lambda: da.DimArray(v23()).axes.__setitem__(0, da.Axis(ctx.nparray(l3, kind='i'), 'x0')),
     }
     r = ctx.call(cases[case])
@@ -364,7 +372,8 @@ def templates():
             add('nested-leaves-%s-%dx%d-%s' % (leaf, n0, n1, lk1), 'nested_leaves', cost=1, n0=n0, n1=n1, leaf=leaf, lk1=lk1)
     for case in ('wrong-length', 'swapped-lengths', 'too-few-axes', 'too-many-axes', 'scalar-with-axis', 'too-few-axes-Axis', 'duplicate-names-pairs', 'duplicate-names-dims',
                  'duplicate-names-Axis', 'duplicate-names-shape-only', 'empty-name', 'zeros-shape-mismatch', 'values-setter-wrong-shape',
-                 'axes-setter-wrong-size-Axes', 'axes-setter-wrong-size-pairs', 'axis-values-wrong-size', 'axes-item-wrong-size'):
+                 'axes-setter-wrong-size-Axes', 'axes-setter-wrong-size-pairs', 'axis-values-wrong-size', 'axes-item-wrong-size',
+                 'scalar-labels-pairs', 'scalar-labels-dict', 'scalar-labels-zeros', 'scalar-labels-Axis', 'scalar-labels-axes-setitem', 'scalar-labels-axis-values', 'scalar-labels-newaxis'):
         add('reject-%s' % case, 'rejections', cost=0.1, case=case)
     for how in ('dims', 'axis.name', 'set_axis'):
         add('rename-duplicate-%s' % how, 'rename_duplicate', cost=0.1, how=how)
